@@ -11,6 +11,9 @@ TraceNS == Rec[1].ns
 TraceNV == Rec[1].nv
 TraceBatches == [bi \in DOMAIN Rec[1].batches |-> {Rec[1].batches[bi][bj] : bj \in DOMAIN Rec[1].batches[bi]}]
 TraceSlack == Rec[1].nv
+TraceGetter == Rec[1].getter = 1
+TraceProviso == Rec[1].getter = 0
+G == <<"g", 0>>
 VARIABLE l
 C == <<"c", 0>>
 TraceInit == Init /\ l = 2 /\ TLCSet(1, 2)
@@ -29,6 +32,8 @@ Logged ==
   \/ Ev("c.predict.ret") /\ p_exit
   \/ Ev("c.get.before")  /\ c_get /\ b = E.a /\ pc'[C] = "c_recv"
   \/ Ev("c.get.after")   /\ c_got /\ got = E.b
+  \/ Ev("g.get.before")  /\ g_get /\ gb = E.a /\ pc'[G] = "g_recv"
+  \/ Ev("g.get.after")   /\ g_got /\ ggot = E.b
   \/ Ev("c.drop")        /\ drop
   \/ Ev("c.dropped")     /\ stopw
   \/ Ev("w.cmd.start")   /\ E.b \in {2, 4} /\ w_step(WorkerId(E.a)) /\ wq[E.a] # <<>>
@@ -43,8 +48,11 @@ Logged ==
   \/ Ev("v.send.after")  /\ \E v \in VoterOfScene(E.a) : v_sent(VoterId(v))
   \/ Ev("v.mon.dec")     /\ \E v \in VoterOfScene(E.a) : v_dec(VoterId(v)) /\ monitor' = E.b
 
+(* without the proviso the client's p_exit is still logged (c.predict.ret); nothing else *)
+p_exit_silent == FALSE
 Silent == /\ UNCHANGED l
-          /\ \/ p_scenes \/ p_enq_do \/ c_recv \/ c_next \/ join \/ (c_get /\ pc'[C] = "c_next")
+          /\ \/ p_scenes \/ p_enq_do \/ c_recv \/ c_next \/ join \/ (c_get /\ pc'[C] = "c_next") \/ c_fin \/ p_exit_silent
+             \/ g_loop \/ g_recv \/ g_next \/ (g_get /\ pc'[G] = "g_next")
              \/ (c_loop /\ b > NB)
              \/ \E s \in Shards : w_loop(WorkerId(s))
              \/ \E v \in Voters : \/ v_loop(VoterId(v)) \/ v_write_do(VoterId(v)) \/ v_send_do(VoterId(v)) \/ v_mwait(VoterId(v))
